@@ -801,6 +801,8 @@ def special_programs():
     add('multiline-declarations', PRELUDE + 'contract A {\n  mapping(address => mapping(address => uint256))\n    private allowances;\n  uint256\n    public\n    _checkpoint = 7;\n  uint256\n    public constant\n    LIMIT = 3;\n'
         '  function\n    _named\n    ()\n    public\n  {\n  }\n  function plain()\n    external   \n  {\n  }\n  function spaced() public /* c */ \n\n  {\n  }\n}')
     add('if-else-if-kinds', PRELUDE + 'contract A { uint x; function f(uint a) public { if (a == 1) { x = 1; } else if (a == 2) { x = 2; } else if (a == 3) { if (x > 0) { x = 3; } } else { x = 4; } if (a > 5) x = 5; else if (a > 6) x = 6; } }')
+    add('many-lines', 'pragma solidity ^0.8.10;\n' + '\n' * 66000 + 'contract A { uint x; function f(uint a) public { x = a + 1; ++x; } }\n')
+    add('long-line', 'pragma solidity ^0.8.10;' + ' ' * 70000 + 'contract A { uint x; function f(uint a) public { x = a + 1; ++x; } }\n\ncontract B { function g(uint a) public returns (uint) { return a * 2; } }\n')
     add('free-functions', PRELUDE + 'function min(uint a, uint b) pure returns (uint) { return a < b ? a : b; }\n'
         'function twice(uint a) pure returns (uint) { return min(a, a) * 2; }\ncontract C { function f() public {} }\nfunction max(uint a, uint b) pure returns (uint) { return a >= b ? a : b; }')
     return P
